@@ -10,7 +10,8 @@ import sympy as sp
 
 from ..algebra import Untranslatable, is_zero, to_sympy
 from ..core.cfg import CFG, ENTRY, EXIT, RAISE
-from ..core.terms import (cmp_, not_, pc, phi_, c, evaluate, fn_name, kw, n, pretty, subterms)
+from ..core.terms import (cmp_, not_, pc, phi_, c, evaluate, fn_name, kw, make_inliner, n,
+                          pretty, subterms)
 from ..domains import concrete
 from .c07 import enum_members
 from .common import LIB_FACTS, is_call, method, short
@@ -51,7 +52,10 @@ def check(ctx):
     globs = {f"{ETYPE}.{k}": v for k, v in members.items()}
     em = repo.cls(EM)
     app = method(repo, em, "append", own=True)
-    ra = evaluate(repo, app)
+    # validity checks moved into helper methods of the manager are read through
+    ra = evaluate(repo, app, inline=make_inliner(
+        repo, self_class=em, allow=lambda f: f.cls is not None and f.cls.qualname == em.qualname),
+        inline_depth=3)
     # ------------------------------------------------------------------ R1
     cfgs = ("a", SELF, "_configs")
     conf = n(app.params()[1])
@@ -139,7 +143,18 @@ def check(ctx):
                     and x.func.attr in ("append", "extend", "pop", "clear", "insert") \
                     and "self." in ast.unparse(x.func.value):
                 muts.append(st)
-    bad = [m for m in muts if cfg.reachable(m, RAISE)]
+    # a call to a helper of the manager that can raise is a possible rejection as well
+    def may_raise(st):
+        for x in ast.walk(st) if not isinstance(st, (ast.If, ast.For, ast.While, ast.Try)) else []:
+            if isinstance(x, ast.Call) and isinstance(x.func, ast.Attribute) \
+                    and isinstance(x.func.value, ast.Name) and x.func.value.id in ("self", "cls"):
+                h = repo.lookup_method(em, x.func.attr)
+                if h is not None and any(isinstance(y, ast.Raise) for y in ast.walk(h.node)):
+                    return True
+        return False
+    raising_calls = [st for st in cfg.stmts if may_raise(st)]
+    bad = [m for m in muts if cfg.reachable(m, RAISE)
+           or any(r is not m and cfg.reachable(m, r) for r in raising_calls)]
     ctx.ob("C16.R1", app, "a rejected append leaves the manager unchanged: no state of the "
                           "manager is written before the last validity check", not bad,
            detail=f"writes followed by a possible raise at lines {[b.lineno for b in bad]}",
